@@ -3,7 +3,10 @@
    model  = the importer model run on the items (the records Go's reader delivered)
    spec   = evaluated on the binary's output by the observer (it needs `knut print`), which
             appends " | print=... | rows=..." to the observation; here that is turned into
-            the verdict. *)
+            the verdict.  Then the statement-level specification (Spec/ImpStmtA.v, theorems
+            C13_<importer>_stdout) is evaluated: a statement the generator calls well-formed must
+            satisfy <importer>_statement_wf, and the binary's stdout must be
+            <importer>_statement_output of the records. *)
 open Drv_util
 open Drv_journal
 
@@ -111,13 +114,28 @@ let run (imp : string) (inp : string) (obs : string) : string * string =
         | _ -> failwith ("unknown importer " ^ imp)) in
   let (base, pr, rows) = split_observed obs in
   let cls = match String.index_opt base ' ' with Some i -> String.sub base 0 i | None -> base in
+  (* the executable statement-level specification (Spec/ImpStmtA.v) on the binary's stdout *)
+  let statement_spec () =
+    let undecoded = "FAIL:" ^ imp ^ "_statement_wf: account flag or records of a well-formed case do not decode" in
+    let acc = match acct with
+      | Some s -> (match K.account_flag (str_of_string s) with K.AAcc x -> Some x | _ -> None)
+      | None -> None in
+    match imp with
+    | "viac" -> "ok"                                       (* no executable statement-level specification yet *)
+    | _ ->
+      (match acc, records_of (decode_items items) with
+       | Some a, Some rs ->
+         (match imp with
+          | "swisscard2" -> statement_verdict imp base (K.sc2_statement_output a rs)
+          | _ -> "ok")                                     (* no executable statement-level specification yet *)
+       | _ -> undecoded) in
   let spec =
     if kind = "wf" then
       if cls <> "OK" then "FAIL:well-formed statement not imported: " ^ clip 60 base
       else if pr <> "ok" && rows <> "ok" then "FAIL:print=" ^ pr ^ "; rows=" ^ rows
       else if pr <> "ok" then "FAIL:print=" ^ pr
       else if rows <> "ok" then "FAIL:rows=" ^ rows
-      else "ok"
+      else statement_spec ()
     else
       (* a damaged statement or a missing/empty account flag: outside C13, which quantifies over
          well-formed statements (and `import` is not among C14's commands).  No verdict; the
